@@ -112,7 +112,8 @@ func genMetaInfo(r *rng.R, info *nfpm.Info) {
 	info.RPM.Summary = rng.Pick(r, []string{"", "explicit summary"})
 	info.RPM.Packager = rng.Pick(r, []string{"", "Packager Inc"})
 	if r.Chance(1, 3) {
-		info.RPM.Prefixes = []string{"/usr", "/opt"}
+		// relocation prefixes as written: several, the root itself, one written with a trailing slash
+		info.RPM.Prefixes = rng.Pick(r, [][]string{{"/usr", "/opt"}, {"/"}, {"/srv/app/", "/opt"}})
 	}
 	info.ArchLinux.Pkgbase = rng.Pick(r, []string{"", "basepkg"})
 	info.ArchLinux.Packager = rng.Pick(r, []string{"", "Arch Packager <a@b>"})
@@ -346,7 +347,7 @@ func metaCase(c *Ctx, fam *report.Family, f string, s *PkgSpec, in map[string]an
 		}
 		if len(infoForModel.RPM.Prefixes) > 0 {
 			if t := dec.Rpm.Hdr[1098]; strings.Join(t.Strs, ",") != strings.Join(infoForModel.RPM.Prefixes, ",") {
-				c.Rep.Find(report.Finding{Property: "C02", Family: fam.Name, Shape: "rpm:prefixes-differ", What: fmt.Sprintf("prefixes %q", t.Strs), Input: in2})
+				c.Rep.Find(report.Finding{Property: "C02", Family: fam.Name, Shape: "rpm:prefixes-differ", What: fmt.Sprintf("the PREFIXES tag holds %q, the configuration states %q", t.Strs, infoForModel.RPM.Prefixes), Input: in2})
 			}
 		}
 	}
